@@ -322,7 +322,7 @@ func streamC04(w *W, rng *rand.Rand, tier string) {
 		streamC04Float(w, rng, 40)
 	}
 	if tier == "thorough" {
-		for _, n := range []int{4000, 20000, 65535, 65536, 65537, 70000} {
+		for _, n := range []int{4000, 20000, 65536, 65537} {
 			lim := int64(1) << 20
 			ps := c04Layout(rng, n, lim)
 			c04Shape(w, rng, ps, 0, n%2 == 0, lim, 6, true)
